@@ -187,22 +187,39 @@ class JobFork:
         d = self.forced[k]
         self.decided[key] = d
         self.log.append((where, d))
+        # a quantified predicate over symbolic data pins the data on one of its outcomes: np.any(x) false (every element is
+        # zero / false) and np.all(x) true.  On such a path an obligation about *values* may fail only because that equality is
+        # not used by the algebra, so it is not reported as a violation there (check._run_job); rules about effects and
+        # aliasing do not depend on values and stay definite.  The other outcome is the generic case.
+        pa = pred_atom(cond)
+        if pa and pa[0][0] == 'qpred':
+            truth = d if pa[1] else (not d)
+            if (pa[0][1] == 'any' and not truth) or (pa[0][1] == 'all' and truth):
+                self.pinned = True
         return d
+
+    pinned = False
 
 
 JOB_FORK = None
 
 
-def is_tolpred(c):
-    """a bare tolerance-predicate atom (or its negation 1 - atom)"""
+def pred_atom(c):
+    """(key, positive) if c is a bare fork-predicate atom - a tolerance predicate ('tolpred', ..) or a quantified predicate over
+    symbolic data ('qpred', 'any'|'all', ..) - or its negation 1 - atom; else None"""
     from .alg import Rat as _R, atoms_with_head
     if not isinstance(c, _R):
-        return False
-    for cand in (c, 1 - c):
-        ks = atoms_with_head(cand, 'tolpred')
-        if len(ks) == 1 and len(cand.atoms()) == 1 and (cand - _R.atom(ks[0][1])).is_zero():
-            return True
-    return False
+        return None
+    for cand, positive in ((c, True), (1 - c, False)):
+        for head in ('tolpred', 'qpred'):
+            ks = atoms_with_head(cand, head)
+            if len(ks) == 1 and len(cand.atoms()) == 1 and (cand - _R.atom(ks[0][1])).is_zero():
+                return ks[0][1], positive
+    return None
+
+
+def is_tolpred(c):
+    return pred_atom(c) is not None
 
 
 class Fork:
@@ -438,6 +455,15 @@ class Interp:
                     if isinstance(st.target, ast.Attribute):
                         self.assign(fr, st.target, cur, st.lineno)
                 return
+            if isinstance(cur, list) and isinstance(st.op, ast.Add):
+                # list += iterable extends the very list object in place (list.__iadd__), unlike  lst = lst + other
+                tag = getattr(self, 'frozen_lists', {}).get(id(cur))
+                if tag:
+                    self.events.append(('input-mutated', tag, self.cur_file, st.lineno))
+                cur.extend(list(rhs) if isinstance(rhs, (list, tuple)) else [rhs])
+                if not isinstance(st.target, ast.Name):
+                    self.assign(fr, st.target, cur, st.lineno)
+                return
             val = self.binop(st.op, cur, rhs, st.lineno)
             self.assign(fr, st.target, val, st.lineno)
         elif t is ast.If:
@@ -631,8 +657,12 @@ class Interp:
                 return True
             return False
         if isinstance(it, (tuple, list)):
-            for v in list(it):
-                self.assign(fr, st.target, v, st.lineno)
+            k = 0
+            while k < len(it):               # by position: items appended to a list during the loop are visited too, as in python
+                self.assign(fr, st.target, it[k], st.lineno)
+                k += 1
+                if k > 10000:
+                    raise AnalysisError("loop over a list that keeps growing")
                 if body_once():
                     break
             return
@@ -789,6 +819,12 @@ class Interp:
             if all((isinstance(x, Sl) and x.lo is None and x.hi is None) or x is ELLIPSIS for x in k):
                 return self.store_subscript(base.base, base.key, v, lineno)
             raise AnalysisError("write through a view with a non-trivial index")
+        if isinstance(base, list):
+            tag = getattr(self, 'frozen_lists', {}).get(id(base))
+            if tag:
+                self.events.append(('input-mutated', tag, self.cur_file, lineno))
+            base[R(key).as_int()] = v
+            return
         if isinstance(base, dict):
             base[key] = v
             return
@@ -978,7 +1014,7 @@ class Interp:
             raise AbstractRaise('AttributeError', f"'float' object has no attribute '{name}'")
         if isinstance(obj, (str, tuple, list, dict)):
             ok = {str: ('format', 'join', 'startswith', 'endswith', 'lower', 'upper'), tuple: ('index', 'count'),
-                  list: ('append', 'extend', 'index', 'count'), dict: ('get', 'keys', 'items', 'values')}
+                  list: ('append', 'extend', 'index', 'count', 'insert', 'pop', 'clear', 'reverse', 'copy'), dict: ('get', 'keys', 'items', 'values')}
             for ty, names in ok.items():
                 if isinstance(obj, ty) and name in names:
                     return ArrMethod(obj, name)
